@@ -56,6 +56,7 @@ type SpecKnobs struct {
 	AllForksInside     bool   // force all four fork epochs < Epochs-1
 	CommitteeDrop      bool   // MAX_COMMITTEES_PER_SLOT 4, MAX_SEED_LOOKAHEAD 1: with an exact genesis active count the committee count drops inside phase0
 	Phase0Leak         bool   // MIN_EPOCHS_TO_INACTIVITY_PENALTY 1 (a leak epoch is processed by phase0 when altair comes at epoch 4)
+	LowBalances        bool   // SYNC_COMMITTEE_SIZE 32, EJECTION_BALANCE 8 ETH, inactivity quotients 6/9/12: one phase0 leak epoch takes a third of the balance of the validators that missed the target
 	WideForks          bool   // fork epochs anywhere in 1..epochs-4 instead of 1..6
 	ForkBias           string // "late": forks at the last four possible epochs; "early": 1,2,3,4
 	OddVectors         bool   // non-power-of-two EPOCHS_PER_HISTORICAL_VECTOR / EPOCHS_PER_SLASHINGS_VECTOR / SLOTS_PER_HISTORICAL_ROOT
@@ -227,6 +228,15 @@ func TinySpec(r *hx.Rng, k SpecKnobs) *common.Spec {
 		sp.INACTIVITY_PENALTY_QUOTIENT_BELLATRIX = q * 2
 		sp.INACTIVITY_SCORE_BIAS = view.Uint64View(pick(r, 1, 4))
 		sp.INACTIVITY_SCORE_RECOVERY_RATE = view.Uint64View(pick(r, 1, 16))
+	}
+	if k.LowBalances {
+		sp.SYNC_COMMITTEE_SIZE = 32
+		sp.EJECTION_BALANCE = 8 * sp.EFFECTIVE_BALANCE_INCREMENT
+		sp.INACTIVITY_PENALTY_QUOTIENT = 6
+		sp.INACTIVITY_PENALTY_QUOTIENT_ALTAIR = 9
+		sp.INACTIVITY_PENALTY_QUOTIENT_BELLATRIX = 12
+		sp.INACTIVITY_SCORE_BIAS = 4
+		sp.BASE_REWARD_FACTOR = 64
 	}
 	if k.FastEth1 {
 		sp.EPOCHS_PER_ETH1_VOTING_PERIOD = 1
